@@ -211,7 +211,7 @@ fn tiny_cases(tier: Tier) -> Vec<Case> {
 pub fn run(tier: Tier) -> i32 {
     let rep: &'static Report = Box::leak(Box::new(Report::new("C02", tier, "model_checking")));
     let monitor = std::sync::Arc::new(HangMonitor::start(rep, "C02 generator history"));
-    rep.set_rule("HIST (stateright BFS): all call histories over {generate_step with buffer fp, fp+1, 2fp, 3fp; synthesized_frames; generate_all (terminal)} up to depth N+3 on real generators of N = 0..5 frames (tiny generated voices, both filter families, 2 and 3 streams, frame periods 1 and 4); every transition rebuilds a fresh generator and replays the history; no state merging; half of the engines with the postfilter on (beta 0.3-0.5), volume and half tone set; plus on V0 (beta 0.3): constant and cycling buffer sizes to exhaustion and generate_all after exactly k steps for every k; non-trivial = history contains at least one step or finish");
+    rep.set_rule("HIST (stateright BFS): all call histories over {generate_step with buffer fp, fp+1, 2fp, 3fp; synthesized_frames; generate_all (terminal)} up to depth N+3 on real generators of N = 0..5 frames (tiny generated voices, both filter families, 2 and 3 streams, frame periods 1 and 4); every transition rebuilds a fresh generator and replays the history; no state merging; half of the engines with the postfilter on (beta 0.3-0.5), volume and half tone set; plus on V0 (beta 0.3): constant and cycling buffer sizes to exhaustion and generate_all after exactly k steps for every k; plus one utterance of > 4200 frames: generate_all after k steps for k around every power of two, and stepping to exhaustion; non-trivial = history contains at least one step or finish");
     rep.assume("buffers no larger than 3 x fperiod; what a step does to buffer samples beyond the first fperiod is not constrained");
     let total_states = AtomicU64::new(0);
     let case_no = AtomicU64::new(0);
@@ -340,11 +340,79 @@ pub fn run(tier: Tier) -> i32 {
             rep.sample_last(json!({"voice": "V0", "frames": n, "history": format!("{} steps cycling buffer sizes, then generate_all", n / 2)}));
         }
     }
+    // beyond the small scope: one long utterance (thousands of frames), generate_all after k steps for k around every
+    // power of two up to the length - block-wise bookkeeping only shows there
+    {
+        let (le, lutt) = long_case();
+        match synth(&le, &lutt) {
+            Err(e) => rep.violation("oneshot", format!("long utterance: one-shot fails: {}", e), json!({"voice": "LONG"})),
+            Ok(oneshot) => {
+                let fp = le.condition.get_fperiod();
+                let n = oneshot.len() / fp;
+                rep.guard(n > 4200, &format!("long utterance has only {} frames", n));
+                let mut ks: Vec<usize> = vec![n.saturating_sub(1), n];
+                let mut p2 = 256usize;
+                while p2 < n {
+                    ks.extend([p2 - 1, p2, p2 + 1]);
+                    p2 *= 2;
+                }
+                ks.sort();
+                ks.dedup();
+                let mut hists: Vec<Vec<Op>> = ks.iter().filter(|k| **k <= n).map(|k| {
+                    let mut h = vec![Op::Step(0); *k];
+                    h.push(Op::Finish);
+                    h
+                }).collect();
+                let mut all = vec![Op::Step(0); n + 1];
+                all.push(Op::Frames);
+                hists.push(all);
+                let mut odd: Vec<Op> = (0..n + 1).map(|i| Op::Step(i % 3)).collect();
+                odd.push(Op::Frames);
+                hists.push(odd);
+                rep.par_for(hists.len(), 1, "C02 long utterance", |i| {
+                    rep.eval(1);
+                    rep.traces.fetch_add(1, Ordering::Relaxed);
+                    if let Err(what) = replay_history(&le, &lutt, &oneshot, &hists[i]) {
+                        let key = if what.contains("panic") { format!("panic@{}", site_of(&what)) } else if what.contains("generate_all") { "finish-suffix".to_string() } else { "chunk".to_string() };
+                        let k = hists[i].iter().filter(|o| matches!(o, Op::Step(_))).count();
+                        rep.violation(key, format!("{} :: long utterance ({} frames), {} steps then {:?}", what, n, k, hists[i].last()), json!({"voice": "LONG", "labels": lutt.len(), "fperiod": fp, "steps": k, "then": format!("{:?}", hists[i].last())}));
+                    }
+                });
+                rep.note("long_family", json!({"frames": n, "labels": lutt.len(), "histories": hists.len(), "generate_all_after_k_steps": ks}));
+            }
+        }
+    }
     rep.guard(total_states > 500, "too few states");
     rep.finish_ref()
 }
 
+/// A tiny voice with frame period 1 and an utterance of several thousand frames.
+fn long_case() -> (Engine, Vec<String>) {
+    let cfg = GenCfg { fperiod: 1, nstate: 2, dur_scale: 4.0, ..GenCfg::default() };
+    let mut e = engine_from_bytes(&cfg.bytes()).expect("generated voice");
+    e.condition.set_beta(0.3);
+    let corpus = labels::corpus();
+    (e, corpus[0..360].to_vec())
+}
+
 pub fn replay(v: &Value) -> i32 {
+    if v["voice"].as_str() == Some("LONG") {
+        let (e, utt) = long_case();
+        let oneshot = synth(&e, &utt).unwrap_or_default();
+        let k = v["steps"].as_u64().unwrap_or(0) as usize;
+        let mut h = vec![Op::Step(0); k];
+        h.push(if v["then"].as_str() == Some("Some(Frames)") { Op::Frames } else { Op::Finish });
+        return match replay_history(&e, &utt, &oneshot, &h) {
+            Ok(()) => {
+                println!("replay: history holds on the long utterance");
+                0
+            }
+            Err(e) => {
+                println!("replay: {}", e);
+                1
+            }
+        };
+    }
     // only the literal inputs are needed: voice description is informative, histories are re-run on matching tiny cases
     let name = v["voice"].as_str().unwrap_or("");
     let fp = v["fperiod"].as_u64().unwrap_or(1) as usize;
